@@ -1441,9 +1441,14 @@ class Sim(object):
         loc = self.local_offsets(before)
         if exact:
             wants = set()
-            for off_l in ([0] if utc else loc):
+            import itertools
+            one = [0] if utc else loc
+            # (each point takes the local zone of the moment it is read: when
+            # the zone moves inside the invocation the two may differ)
+            for off_pair in itertools.product(one, repeat=2):
                 ts = []
                 for i, p in enumerate(pts):
+                    off_l = off_pair[i]
                     if i == now_at:
                         # the current time: what the clock served, held in
                         # the local zone (UTC with --utc), calendar form
